@@ -29,6 +29,7 @@ REFUTED_PATTERNS = [
     (r"^constructed value may fail to meet its declared type invariant", "type-invariant"),
     (r"^cannot show .* (recommend|invariant)", "invariant"),
     (r"^failed to prove", "assert"),
+    (r"^expression simplifies to false", "assert"),
     (r"^proof block", "assert"),
     (r"^assert_by", "assert"),
 ]
@@ -45,7 +46,7 @@ def classify(msg):
     return ("infra", None)
 
 
-def run(gen_path, rlimit=None, seed=None, timeout=1800, extra=None, threads=None):
+def run(gen_path, rlimit=None, seed=None, timeout=420, extra=None, threads=None):
     cmd = [VERUS, os.path.basename(gen_path), "--output-json", "--time-expanded", "--error-format=json",
            "--multiple-errors", "50"]
     if rlimit:
@@ -153,9 +154,16 @@ def attribute(diag, g, gen_file):
     if kind == "ensures":
         if clause_span is not None and clause_span[1].get("fn") == fn:
             name = clause_span[1]["ord"]
+            props = list(clause_span[1].get("props") or props)
         else:
-            # postcondition of a trait spec (e.g. vstd's From::from ensures from_spec)
+            # postcondition inherited from a trait declaration (ours, restated in the template, or vstd's)
             name = "ensures(trait-spec)"
+            for s in prim + other:
+                i = info(s["line"])
+                if i.get("linetag"):
+                    props = list(i.get("props") or [])
+                    name = "ensures(trait-spec:%s)" % re.sub(r"\s+", " ", s["text"])[:50]
+                    break
     elif kind == "call-requires":
         callee = None
         if clause_span is not None:
@@ -179,6 +187,8 @@ def attribute(diag, g, gen_file):
                     detail["src"] = "%s:%d" % (i.get("src"), i["srcline"])
     elif kind == "invariant":
         name = clause_span[1]["ord"] if clause_span is not None else "invariant"
+        if clause_span is not None:
+            props = list(clause_span[1].get("props") or props)
         if "before" in diag["message"] or any("before" in (s.get("label") or "") for s in diag["spans"]):
             name += "(entry)"
     elif kind is not None:
